@@ -145,6 +145,22 @@ EXTRA3 = {
     "C19": "A second logger asking for the connected logger's id; a logger connecting with CONNECT alone.",
 }
 
+EXTRA4 = {
+    "C02": "A third configuration connects the client under test as a logger module.",
+    "C03": "A report subscriber dies in the middle of a multi-part report; a newcomer asks for an id that two connections share.",
+    "C04": "User messages with ids below 100.",
+    "C05": "A receiver resets right before one of the manager's send calls (also in the timers-only round).",
+    "C08": "discard_messages() while the tail of a frame is still arriving.",
+    "C09": "Explicit infinities are out of the domain; validation state after library calls that switch it off internally.",
+    "C10": "Headers as they come out of the constructor.",
+    "C12": "Different files named by the same relative import string.",
+    "C13": "Name / id edits of reuse-form definitions; constants mentioned by field types live elsewhere or change value.",
+    "C14": "A CONNECT-only logger; the manager's periodic reports and a subscriber that cannot take them.",
+    "C16": "Blanks inside field specs; the model of a re-used Parser equals a fresh one's.",
+    "C18": "A sender that leaves within the interval; a module announcing another process id.",
+    "C19": "Requests before the handshake.",
+}
+
 ALL = [f"C{i:02d}" for i in range(1, 20)]
 NOT_YET = "check not built yet in this round (planned; see DESIGN.md section 4)"
 
@@ -162,7 +178,7 @@ def main():
             "evidence_file": f"/verif/evidence/{pid}.json",
             "replay_cmd_template": "./vcheck replay {path}",
             "engine": c["engine"],
-            "level_claimed": {"category": c["level"], "text": (c["text"] + " " + EXTRA.get(pid, "") + " " + EXTRA2.get(pid, "") + " " + EXTRA3.get(pid, "")).strip(), "design_ref": c["ref"]},
+            "level_claimed": {"category": c["level"], "text": (c["text"] + " " + EXTRA.get(pid, "") + " " + EXTRA2.get(pid, "") + " " + EXTRA3.get(pid, "") + " " + EXTRA4.get(pid, "")).strip(), "design_ref": c["ref"]},
             "level_note": c["note"],
             "technique": c["technique"],
         })
